@@ -179,9 +179,9 @@ func (r *Run) monitorMapRead(o *Object) {
 	}
 	if r.locks[k] == 0 {
 		r.flush()
-		var vec []uint64
-		if r.sol.CheckSat() == Sat {
-			vec, _ = r.model()
+		vec, ok := r.witness("unlocked-read")
+		if !ok {
+			return
 		}
 		r.addFinding("unlocked-read", "lookup in a lock-guarded registry without holding its lock", o.Name, vec)
 	}
